@@ -864,6 +864,70 @@ pub fn c09(c: &mut Ctx) {
 }
 
 // =================================================================================================
+// C02 / C09: refinement against a reference model of the mailbox
+
+/// The mailbox must be explainable as a bounded FIFO queue. For every actor take the handled messages in
+/// handler-entry order m1..mk. A bounded FIFO queue admits this history iff there are enqueue moments e_i with
+///   inv_i <= e_i < end_i        (the message entered while its send was in progress)
+///   e_1 <= e_2 <= ... <= e_k    (first in, first out: handling order is enqueue order)
+///   e_i < d_i                   (entered before it was taken; d_i = handler entry, same poll as the take)
+///   e_i >= d_(i-cap)            (a slot was free: the message cap places ahead had been taken)
+/// Choosing every e_i as early as the lower bounds allow is optimal (the upper bounds are per message), so
+/// feasibility is decided by one pass. Messages and stop markers that were never handled are left out, which
+/// only removes constraints (they could only take more room). Skipped when the reserve | push window was open
+/// in the run: reservation order (capacity) and push order (FIFO) then differ.
+pub fn queue_model(c: &mut Ctx) {
+    let h = c.h;
+    if h.split {
+        return;
+    }
+    for a in 0..h.actors.len() as u32 {
+        if !h.actors[a as usize].spawned {
+            continue;
+        }
+        let cap = h.cap_of(a);
+        // (dequeue moment, invocation, end of the send, message id)
+        let mut items: Vec<(u64, u64, u64, u64)> = Vec::new();
+        for (mid, m) in &h.msgs {
+            let he = match m.henter.first() {
+                Some(x) if x.2 == a => x.0,
+                _ => continue,
+            };
+            let o = match m.op {
+                Some(i) => &h.ops[i],
+                None => continue,
+            };
+            if o.a != Some(a) || !o.tag.is_send() {
+                continue;
+            }
+            items.push((he, o.inv_seq, o.end_seq().unwrap_or(u64::MAX), *mid));
+        }
+        items.sort();
+        let mut e: Vec<u64> = Vec::with_capacity(items.len());
+        for (i, (d, inv, end, mid)) in items.iter().enumerate() {
+            let order = if i > 0 { e[i - 1] } else { 0 };
+            let room = if i >= cap { items[i - cap].0 } else { 0 };
+            let lo = (*inv).max(order).max(room);
+            c.chk.hit("C02");
+            c.chk.hit("C09");
+            if lo >= *d || lo >= *end {
+                // which lower bound made it impossible?
+                let without_room = (*inv).max(order);
+                if without_room < *d && without_room < *end {
+                    c.v("C09", "queue-model:no-room", *inv, format!("actor {a} (capacity {cap}): message {mid} entered the mailbox (send between seq {inv} and {end}, handled at {d}) although the {cap} messages handled before it had not all been taken by then - the mailbox held more than its capacity"));
+                } else {
+                    c.v("C02", "queue-model:order", *inv, format!("actor {a}: message {mid} (send between seq {inv} and {end}) was handled at seq {d}, which no FIFO queue can produce given the messages handled before it (earliest possible entry after seq {lo})"));
+                }
+                // keep going with a feasible value so that one anomaly is reported once
+                e.push(without_room.min(d.saturating_sub(1)));
+                break;
+            }
+            e.push(lo);
+        }
+    }
+}
+
+// =================================================================================================
 // C10
 
 pub fn c10(c: &mut Ctx) {
@@ -1157,6 +1221,7 @@ pub fn run_all(h: &History) -> (Vec<Violation>, Checked) {
     c07(&mut c);
     c08(&mut c);
     c09(&mut c);
+    queue_model(&mut c);
     c10(&mut c);
     c11(&mut c);
     c13(&mut c);
